@@ -25,6 +25,13 @@ def grid_docs():
     out.append(one_rect([], {"fill": "currentColor", "color": "green"}, {}, {"color": "purple"}))
     out.append(one_rect([], {"stroke": "currentColor"}, {}, {"color": "purple"}))
     out.append(one_rect([], {"fill": "currentColor"}, {}, {}))
+    # the color that currentColor refers to may itself come from any source
+    for prop in ("fill", "stroke"):
+        out.append(one_rect([[["rect"], {"color": "navy"}]], {prop: "currentColor"}, {}, {"color": "purple"}))
+        out.append(one_rect([], {prop: "currentColor"}, {"color": "olive"}, {"color": "purple"}))
+        out.append(one_rect([[[".a"], {prop: "currentColor"}]], {"color": "green"}, {}, {}))
+        out.append(one_rect([[["#r"], {"color": "navy"}]], {}, {prop: "currentColor"}, {"color": "purple"}))
+        out.append(one_rect([[["*"], {prop: "currentColor", "color": "gray"}]], {}, {}, {}))
     out.append(one_rect([], {"fill": "red", "fill-opacity": "0.5", "stroke": "blue", "stroke-opacity": "0.25"}, {}, {}))
     out.append(one_rect([], {}, {}, {"fill-opacity": "0.5", "stroke": "#123456", "stroke-width": "2pt"}))
     return out
